@@ -62,7 +62,7 @@ def predict(cfg, rng, q=None):
             return np.asarray(x, dtype=float) + z
         Tm = np.array([[arr(T.nn), arr(T.nb), arr(T.nt)], [arr(T.bn), arr(T.bb), z], [arr(T.tn), z, arr(T.tt)]])     # [direction][component]
         lp = abs(q.G0) / q.B0
-        ddl = lambda f: np.matmul(q.d_d_varphi, f) / lp
+        ddl = lambda f: dvarphi_indep(q, f) / lp
         k, tau = q.curvature, q.torsion
         W = np.zeros((3, 3, q.nphi))            # d e_c / dl = sum_a W[c][a] e_a
         W[0][2] = -k; W[0][1] = tau; W[1][0] = -tau; W[2][0] = k
